@@ -385,7 +385,8 @@ for nm in ("to_end", "remove"):
       funcs=["collections::Vec::splice", "<Splice as Drop>::drop", "Drain::fill", "Drain::move_tail"],
       bounds={"vector": "4 elements, capacity 12", "range and replacement length": "concrete per instance (%s)" % nm, "values": "symbolic"})
 # (v6_from_iter_filter - inexact size hint, generic Extend path - ran past 17 min: not registered)
-for nm, q in (("from_iter_exact", 1), ("vec_macro_list", 0), ("vec_macro_repeat", 1), ("drain_filter", 1)):
+# (the two drain_filter harnesses take 8-9 min each: thorough tier only)
+for nm, q in (("from_iter_exact", 1), ("vec_macro_list", 0), ("vec_macro_repeat", 1), ("drain_filter", 0)):
     H("v6_" + nm, "__verif::v1", "V6", quick=["C13"] if q else [], thorough=["C13"], timeout=1500, cost=40, stubs=STUB_CUT + STUB_LOOPS, inst="Vec<u8>",
       funcs=["collections::Vec::from_iter_in", "vec! (list and repeat forms)", "collections::Vec::drain_filter", "<DrainFilter as Drop>::drop"],
       bounds={"length": "3 (4 for the repeat form), concrete", "values": "symbolic u8", "predicate": "membership in a symbolic set", "scenario": nm})
@@ -432,7 +433,7 @@ H("s2_from_utf8", "__verif::s1", "S2", quick=[], thorough=["C14"], timeout=2400,
 # ---------------------------------------------------------------------------
 DL = ["pop", "remove", "swap_remove", "truncate", "clear", "drain", "forget_drain", "into_iter", "retain", "dedup", "split_off", "into_boxed", "into_slice", "drop_only", "drain_nth", "drain_filter"]
 for op in DL:
-    H("dl_" + op, "__verif::dl", "DL", quick=["C15"] if op in ("pop", "remove", "truncate", "drain", "into_iter", "retain", "into_boxed", "into_slice", "drop_only", "drain_nth", "dedup", "drain_filter") else [],
+    H("dl_" + op, "__verif::dl", "DL", quick=["C15"] if op in ("pop", "remove", "truncate", "drain", "into_iter", "retain", "into_boxed", "into_slice", "drop_only", "drain_nth", "dedup") else [],
       thorough=["C15"] + (["C17"] if op == "into_boxed" else []), timeout=1500, cost=40, stubs=STUB_CUT + STUB_LOOPS, inst="Vec<D> (D = id + counting destructor)",
       funcs=["collections::Vec::" + op, "<Vec as Drop>::drop", "Drain/IntoIter Drop", "Bump::reset"],
       bounds={"elements": 3, "operation": op, "arguments": "symbolic", "then": "container dropped, arena reset"})
